@@ -469,9 +469,35 @@ func translateClosure(p *pkgInfo) string {
 	} else {
 		body = t.stmts(after, "  ")
 	}
+	// the prologue: nothing but the declarations, the snapshot of both fields under the read lock, and the passthrough branch
+	var passBody string
+	if found {
+		want := []string{"var icfg *internalConfig", "var debug bool", "m.mu.RLock()", "{ icfg = m.icfg debug = m.debug }", "m.mu.RUnlock()"}
+		var got []string
+		var pass *ast.IfStmt
+		for _, st := range lit.Body.List {
+			if is, ok := st.(*ast.IfStmt); ok && exprText(is.Cond) == "icfg == nil" {
+				pass = is
+				break
+			}
+			got = append(got, codeText(st))
+		}
+		if strings.Join(got, " ;; ") != strings.Join(want, " ;; ") {
+			t.bad = append(t.bad, "prologue: "+strings.Join(got, " ;; "))
+			passBody = fmt.Sprintf("(GoRt.unsupported %q)", strings.Join(got, " ;; "))
+		} else if pass.Else != nil || pass.Init != nil {
+			passBody = t.unsupported(pass)
+		} else {
+			passBody = t.stmts(pass.Body.List, "    ")
+		}
+	}
 	var b strings.Builder
 	fmt.Fprintf(&b, "/-- the closure of `Wrap` after the passthrough test, translated from: %s -/\n", strings.ReplaceAll(codeText(&ast.BlockStmt{List: after}), "-/", "- /"))
 	fmt.Fprintf(&b, "def serveClosure (icfg : ICfg) (debug : Bool) (r : Req) (resHdrs : HdrMap) : Resp :=\n  let status : Option Nat := none\n  let next := false\n  %s\n\n", body)
+	if found {
+		fmt.Fprintf(&b, "/-- the whole closure of `Wrap` on the model's state: the snapshot of (configuration pointer, debug flag) taken under the read lock, the passthrough branch, then `serveClosure`. -/\n")
+		fmt.Fprintf(&b, "def serveMw (m : Mw) (r : Req) (resHdrs : HdrMap) : Resp :=\n  match m.icfg with\n  | none =>\n    let status : Option Nat := none\n    let next := false\n    %s\n  | some icfg => serveClosure icfg m.debug r resHdrs\n\n", passBody)
+	}
 	if len(t.bad) > 0 {
 		fmt.Fprintf(&b, "/- UNSUPPORTED in the closure of Wrap: %s -/\n\n", strings.ReplaceAll(strings.Join(t.bad, " ;; "), "-/", "- /"))
 	}
